@@ -21,7 +21,10 @@ MANIFEST = dict(
          "inlining), complete method table; five Python dispatchers executed on abstract scalar/array arguments (private helpers followed): "
          "scalar pattern -> suffix -> converted argument, differing lengths raise before the two-array call; exhaustive abstract "
          "evaluation of the parameter normaliser over (omega_k in {None,0,nonzero}) x (flat in {T,F}); h overrides H0, D_H = c/H0; copy "
-         "and pickle argument order; distance modulus formula.",
+         "and pickle argument order; object state by abstract execution of the constructor, accessors, copy(), __copy__, __deepcopy__ and "
+         "__reduce__ on symbolic arguments with the attributes of self tracked: D_H = c/(100 h | H0), H0() * D_H = c, normalised parameters "
+         "reach the extension object, every duplicate is built from the same extension arguments and reports the same H0(); distance "
+         "modulus formula.",
     note="Not decided: truncation-error bound of the fixed-order rule, bit-identical results of copies (follows from equal constructor "
          "arguments), libm. Trusted: clang AST, sympy normaliser, the method-table-to-Python naming of the extension type.",
     technique="static analysis: formula conformance by symbolic normal forms lowered from the clang AST, format/table agreement, sibling cross-check of wrappers and dispatchers, exhaustive abstract evaluation of the normaliser",
@@ -34,7 +37,7 @@ ONE = {"ez_inverse": "z", "dV": "z"}
 
 # rules that keep their verdict however the code is laid out (decided by term equality, effect analysis or dominance over
 # resolved calls); every other rule of this check is a template rule (vcheck.core.Check.obt)
-SEMANTIC = ('R11.1', 'R11.3', 'R11.4', 'R11.5::extract_parms')
+SEMANTIC = ('R11.1', 'R11.3', 'R11.4', 'R11.5::extract_parms', 'R11.6::state')
 
 
 def run(chk):
@@ -53,6 +56,7 @@ def run(chk):
     normaliser(chk, repo)
     constructor(chk, repo, wrap)
     copy_pickle(chk, repo)
+    object_state(chk, repo)
     distmod(chk, repo)
 
 
@@ -1250,6 +1254,251 @@ def copy_pickle(chk, repo):
     pos = [p for p in init.params if p != "self"]
     want = {"H0": "self.H0()", "h": "None", "flat": "bool(self.flat())", "omega_m": "self.omega_m()", "omega_l": "self.omega_l()", "omega_k": "self.omega_k()"}
     chk.ob("R11.6", "Cosmo._pars::constructor-positional-order", elts == [want[p] for p in pos], pars.where(), "the pickling tuple follows the constructor's positional order %s (found %s)" % (pos, elts))
+
+# --------------------------------------------------------------------------
+# object state: the constructor, the parameter accessors and the four ways of duplicating an object (copy(), __copy__,
+# __deepcopy__, __reduce__) are executed by the abstract interpreter on SYMBOLIC constructor arguments (H0, h, omega_m, omega_l
+# symbols; omega_k None / zero / a non-zero symbol; flat True / False) with the attributes of `self` tracked, so the rules are
+# stated on what the object ends up holding -- the arguments the extension object was built with and what H0() reports --
+# however the statements of the constructor are ordered or split into helpers.
+# --------------------------------------------------------------------------
+EXT_PARAMS = ("DH", "flat", "omega_m", "omega_l", "omega_k")
+
+
+def _is_property(fi):
+    return any(norm(d) in ("property", "builtins.property", "functools.cached_property", "cached_property") for d in fi.node.decorator_list)
+
+
+class _ObjInterp(_Interp):
+    """_Interp with objects: `self.x = v` is recorded on the object, `self.x` reads it back, methods and properties run on the
+    object they were looked up on, calling the class constructs a new object through __init__, the extension constructor
+    yields an object that remembers its arguments and whose parameter accessors return them (that the accessors and the C
+    constructor do so is what R11.3 ::accessor, R11.5 PyCosmoObject_init and R11.1 cosmo_new::parameters-stored establish)."""
+
+    def new_object(self, clsname):
+        mod, cls = clsname.rsplit(".", 1)
+        return _Tag("self", cls=cls, mod=mod, attrs={})
+
+    def construct(self, clsname, pos, kw, depth):
+        init = self.repo.funcs.get(clsname + ".__init__")
+        if init is None:
+            raise _Unsup("class %s has no __init__ of its own" % clsname)
+        o = self.new_object(clsname)
+        self.invoke(init, pos, kw, depth + 1, this=o)
+        return o
+
+    def method(self, o, name, pos=(), depth=0):
+        m = self.repo.funcs.get("%s.%s.%s" % (o.mod, o.cls, name))
+        if m is None:
+            raise _Unsup("the class has no method %s" % name)
+        if _is_property(m):
+            return self.invoke(m, [], {}, depth + 1, this=o)
+        return self.invoke(m, list(pos), {}, depth + 1, this=o)
+
+    def explore(self, thunk):
+        out, todo = [], [{}]
+        while todo:
+            self.dec = todo.pop()
+            self.calls = []
+            try:
+                out.append({"kind": "return", "value": thunk(), "dec": dict(self.dec)})
+            except _Raised as r:
+                out.append({"kind": "raise", "value": r.what, "dec": dict(self.dec)})
+            except _Need as n:
+                if len(self.dec) >= self.max_forks:
+                    raise _Unsup("too many undecided tests")
+                todo.append(dict(self.dec, **{n.key: True}))
+                todo.append(dict(self.dec, **{n.key: False}))
+        return out
+
+    def invoke(self, fi, pos, kw, depth, this=None):
+        if depth > 6:
+            raise _Unsup("call nesting too deep")
+        params = list(fi.params)
+        if any(p_.startswith("*") for p_ in params):
+            raise _Unsup("variadic callee %s" % fi.name)
+        env = {}
+        if fi.cls and params and not any(norm(d) in ("staticmethod", "classmethod") for d in fi.node.decorator_list):
+            if this is None:
+                raise _Unsup("method %s called without an object" % fi.name)
+            env[params[0]] = this
+            params = params[1:]
+        if len(pos) > len(params):
+            raise _Unsup("too many arguments for %s" % fi.name)
+        for p_, v in zip(params, pos):
+            env[p_] = v
+        for k, v in kw.items():
+            if k not in params or k in env:
+                raise _Unsup("keyword %s of %s" % (k, fi.name))
+            env[k] = v
+        for p_ in params:
+            if p_ not in env:
+                if p_ not in fi.defaults:
+                    raise _Unsup("missing argument %s of %s" % (p_, fi.name))
+                env[p_] = self.ev(fi.defaults[p_], {}, fi, depth)
+        try:
+            self.block(fi.node.body, env, fi, depth)
+        except _Return as r:
+            return r.value
+        return None
+
+    def bind(self, t, v, env):
+        if isinstance(t, ast.Attribute):
+            o = env.get(t.value.id) if isinstance(t.value, ast.Name) else None
+            if isinstance(o, _Tag) and o.kind == "self" and hasattr(o, "attrs"):
+                o.attrs[t.attr] = v
+                return
+        _Interp.bind(self, t, v, env)
+
+    def ev(self, e, env, fi, depth):
+        if isinstance(e, ast.Attribute):
+            b = self.ev(e.value, env, fi, depth)
+            if isinstance(b, _Tag) and b.kind == "self" and hasattr(b, "attrs"):
+                if e.attr == "__class__":
+                    return _Tag("global", name="%s.%s" % (b.mod, b.cls))
+                if e.attr in b.attrs:
+                    return b.attrs[e.attr]
+                m = self.repo.funcs.get("%s.%s.%s" % (b.mod, b.cls, e.attr))
+                if m is None:
+                    raise _Unsup("attribute %s is read before it is set (line %s)" % (e.attr, getattr(e, "lineno", "?")))
+                if _is_property(m):
+                    return self.invoke(m, [], {}, depth + 1, this=b)
+                return _Tag("method", fi=m, obj=b)
+            if isinstance(b, _Tag) and b.kind == "extobj":
+                return _Tag("extacc", obj=b, name=e.attr)
+        return _Interp.ev(self, e, env, fi, depth)
+
+    def call(self, c, env, fi, depth):
+        if any(isinstance(a, ast.Starred) for a in c.args) or any(k.arg is None for k in c.keywords):
+            raise _Unsup("star arguments in %s" % norm(c))
+        f = self.ev(c.func, env, fi, depth)
+        if isinstance(f, _Tag) and f.kind in ("method", "global", "extacc"):
+            pos = [self.ev(a, env, fi, depth) for a in c.args]
+            kw = {k.arg: self.ev(k.value, env, fi, depth) for k in c.keywords}
+            if f.kind == "method" and hasattr(f, "obj"):
+                return self.invoke(f.fi, pos, kw, depth + 1, this=f.obj)
+            if f.kind == "extacc":
+                if f.name in EXT_PARAMS and not pos and not kw:
+                    return f.obj.args[EXT_PARAMS.index(f.name)]
+                return _UNKNOWN
+            if f.kind == "global":
+                if self.repo.class_of(f.name) is not None:
+                    return self.construct(f.name, pos, kw, depth)
+                if f.name.split(".")[-2:] == ["_cosmolib", "cosmo"]:
+                    if kw or len(pos) != len(EXT_PARAMS):
+                        raise _Unsup("extension constructor called as %s" % norm(c))
+                    return _Tag("extobj", args=tuple(pos))
+                if f.name in ("copy.deepcopy", "copy.copy") and pos and (pos[0] is None or isinstance(pos[0], (bool, int, float, str, sp.Basic))):
+                    return pos[0]
+                if f.name in ("float", "numpy.float64", "numpy.double") and len(pos) == 1 and not kw and isinstance(pos[0], sp.Basic):
+                    return pos[0]
+        elif isinstance(c.func, ast.Name) and c.func.id == "float" and "float" not in env and len(c.args) == 1 and not c.keywords:
+            v = self.ev(c.args[0], env, fi, depth)
+            if isinstance(v, sp.Basic):
+                return v
+        return _Interp.call(self, c, env, fi, depth)
+
+
+def _same3(a, b):
+    """True / False / None (one side is not a value the interpreter knows): equal as values"""
+    if isinstance(a, (_Tag, _Arg)) or isinstance(b, (_Tag, _Arg)):
+        return None
+    if isinstance(a, bool) or isinstance(b, bool) or a is None or b is None:
+        return a is b
+    try:
+        return bool(sp.simplify(sp.sympify(a) - sp.sympify(b)) == 0)
+    except (sp.SympifyError, TypeError):
+        return None
+
+
+def object_state(chk, repo):
+    CLS = CQ + "Cosmo"
+    init = repo.func(CLS + ".__init__")
+    W = init.where()
+    mod = repo.module("esutil.cosmology.cosmology")
+    try:
+        clight = float(norm(mod.consts.get("_CLIGHT", ast.Constant(value=None))))
+    except ValueError:
+        clight = None
+    H0s, hs = sp.Symbol("H0", positive=True), sp.Symbol("h", positive=True)
+    M, Lm = sp.Symbol("omega_m", real=True), sp.Symbol("omega_l", real=True)
+    K = sp.Symbol("omega_k", real=True, nonzero=True)
+
+    def observe(it, o):
+        ext = [v for v in o.attrs.values() if isinstance(v, _Tag) and v.kind == "extobj"]
+        if len(ext) != 1:
+            raise _Unsup("the constructed object holds %d extension objects" % len(ext))
+        return {"ext": ext[0].args, "H0": it.method(o, "H0")}
+
+    routes = {
+        "copy()": lambda it, o: it.method(o, "copy"),
+        "copy.copy": lambda it, o: it.method(o, "__copy__"),
+        "copy.deepcopy": lambda it, o: it.method(o, "__deepcopy__", [_UNKNOWN]),
+        "pickle": None,
+    }
+
+    def unpickle(it, o):
+        red = it.method(o, "__reduce__")
+        if not (isinstance(red, tuple) and len(red) >= 2 and isinstance(red[0], _Tag) and red[0].kind == "global" and isinstance(red[1], tuple)
+                and repo.class_of(red[0].name) is not None):
+            raise _Unsup("__reduce__ does not return (class, argument tuple): %s" % (red,))
+        return it.construct(red[0].name, list(red[1]), {}, 0)
+
+    routes["pickle"] = unpickle
+
+    for hname, hkw in (("H0", {"H0": H0s}), ("h", {"h": hs}), ("H0+h", {"H0": H0s, "h": hs})):
+        H0_want = 100 * hs if "h" in hkw else H0s
+        for flat_in, kname, kval in ((True, "None", None), (False, "None", None), (True, "nonzero", K), (False, "nonzero", K), (False, "zero", 0.0)):
+            case = "%s,flat=%s,omega_k=%s" % (hname, flat_in, kname)
+            kwargs = dict(hkw, flat=flat_in, omega_m=M, omega_l=Lm, omega_k=kval)
+            want = (False, M, Lm, K) if kname == "nonzero" else (True, M, 1 - M, 0.0)
+            keys = ["state::hubble-distance[%s]" % case, "state::H0-accessor-reports-constant-in-use[%s]" % case, "state::normalised-parameters-reach-extension[%s]" % case]
+            it = _ObjInterp(repo)
+            try:
+                outs = it.explore(lambda: observe(it, it.construct(CLS, [], dict(kwargs), 0)))
+                if clight is None:
+                    raise _Unsup("_CLIGHT is not a literal")
+                if not outs or any(o["kind"] != "return" for o in outs):
+                    raise _Unsup("the constructor raises for valid arguments on some path: %s" % [(o["kind"], o["value"]) for o in outs])
+            except _Unsup as e:
+                for k in keys:
+                    chk.ob("R11.6", k, None, W, "the constructor / accessors use a construct outside the interpreted subset (%s)" % e)
+                outs = None
+            if outs is not None:
+                obs = [o["value"] for o in outs]
+                dh = [x["ext"][0] for x in obs]
+                chk.ob("R11.6", keys[0], _all3(_same3(d, clight / H0_want) for d in dh), W,
+                       "Cosmo(%s): the extension object is built with D_H = c/H0, H0 = %s (h overrides H0) (found D_H = %s)" % (case, H0_want, dh))
+                chk.ob("R11.6", keys[1], _all3(_same3(x["H0"] * x["ext"][0] if isinstance(x["H0"], (int, float, sp.Basic)) and isinstance(x["ext"][0], (int, float, sp.Basic)) else _UNKNOWN, clight) for x in obs), W,
+                       "Cosmo(%s): H0() reports the Hubble constant the distances are computed with, H0() * D_H = c (found H0() = %s while D_H = %s)" % (case, [x["H0"] for x in obs], dh))
+                chk.ob("R11.6", keys[2], _all3(_same3(a, b) for x in obs for a, b in zip(x["ext"][1:], want)), W,
+                       "Cosmo(%s): the extension object gets the normalised (flat, omega_m, omega_l, omega_k) = %s (found %s)" % (case, want, [x["ext"][1:] for x in obs]))
+            for rname, route in routes.items():
+                key = "state::%s-rebuilds-same-cosmology[%s]" % (rname, case)
+                it = _ObjInterp(repo)
+
+                def both():
+                    o = it.construct(CLS, [], dict(kwargs), 0)
+                    n = route(it, o)
+                    if not (isinstance(n, _Tag) and n.kind == "self" and hasattr(n, "attrs")) or n is o:
+                        raise _Unsup("%s does not return a newly constructed object (%s)" % (rname, n))
+                    return observe(it, o), observe(it, n)
+
+                try:
+                    outs = it.explore(both)
+                except _Unsup as e:
+                    chk.ob("R11.6", key, None, W, "the code reached through %s uses a construct outside the interpreted subset (%s)" % (rname, e))
+                    continue
+                if not outs or any(o["kind"] != "return" for o in outs):
+                    chk.ob("R11.6", key, None, W, "construction or %s raises on some path: %s" % (rname, [(o["kind"], o["value"]) for o in outs]))
+                    continue
+                res = []
+                for o in outs:
+                    a, b = o["value"]
+                    res += [_same3(x, y) for x, y in zip(a["ext"], b["ext"])] + [_same3(a["H0"], b["H0"])]
+                chk.ob("R11.6", key, _all3(res), W,
+                       "Cosmo(%s): the object obtained through %s has the same H0() and builds its extension object from the same (D_H, flat, omega_m, omega_l, omega_k) (original %s, duplicate %s)"
+                       % (case, rname, [o["value"][0] for o in outs], [o["value"][1] for o in outs]))
 
 
 def distmod(chk, repo):
